@@ -5,6 +5,7 @@ import (
 	"crypto/sha256"
 	"encoding/binary"
 	"fmt"
+	"strings"
 	"sync"
 	"testing"
 	"time"
@@ -65,6 +66,10 @@ type c16Conn struct {
 
 type c16Case struct {
 	Conns []c16Conn
+	// Big: every message carries 6000 bytes, and every connection is followed by a connection without any identity that sends
+	// 8 KiB of its own bytes where the handshake belongs. What the server attributed to a registered node must stay what
+	// that node sent (the consumer keeps the delivered messages).
+	Big bool `json:",omitempty"`
 }
 
 func genC16(t *rapid.T) c16Case {
@@ -77,6 +82,7 @@ func genC16(t *rapid.T) c16Case {
 		}
 		c.Conns = append(c.Conns, c16Conn{Variant: v, Peer: rapid.IntRange(0, 3).Draw(t, "peer"), Arg: rapid.IntRange(0, 100000).Draw(t, "arg")})
 	}
+	c.Big = rapid.IntRange(0, 3).Draw(t, "big") == 0
 	return c
 }
 
@@ -175,12 +181,36 @@ func runC16(c c16Case) *vh.Outcome {
 	}
 	conns = append(conns, spare)
 	nontrivial := 0
+	gotBefore := len(w.srv.snapshot())
+	pad := ""
+	if c.Big {
+		pad = "|" + strings.Repeat("H", 6000)
+	}
+	// garbageConn: a connection without identity that sends 8 KiB of 'X' (length-prefixed) where the handshake belongs
+	garbageConn := func() {
+		if !c.Big {
+			return
+		}
+		gc, err := dialRaw(w.srv.Addr, w.srv.Pool)
+		if err != nil {
+			return
+		}
+		conns = append(conns, gc)
+		b := make([]byte, 2+8192)
+		binary.LittleEndian.PutUint16(b, 8192)
+		for i := 2; i < len(b); i++ {
+			b[i] = 'X'
+		}
+		_ = gc.c.SetWriteDeadline(time.Now().Add(3 * time.Second))
+		_, _ = gc.c.Write(b)
+	}
 	libConns, discardedRaw := 0, 0
 	var bmu sync.Mutex
 	var bindings [][]byte
 	for _, cn := range c.Conns {
 		w.seq++
-		marker := fmt.Sprintf("m-%d-%d", time.Now().UnixNano(), w.seq)
+		marker := fmt.Sprintf("m-%d-%d", time.Now().UnixNano(), w.seq) + pad
+		garbageConn()
 		peer := cn.Peer % 4
 		id := w.peers[peer]
 		domain := w.domains[peer]
@@ -202,7 +232,7 @@ func runC16(c c16Case) *vh.Outcome {
 			} else {
 				// first a correct connection whose handshake is recorded, then a second connection that presents the recording
 				var recorded *tssnet.Handshake
-				first := fmt.Sprintf("%s-first", marker)
+				first := fmt.Sprintf("first-%s", marker)
 				done := make(chan struct{})
 				w.libSend(domain, func(b []byte) tssnet.Handshake {
 					h := signedHandshake(id, domain, b)
@@ -360,7 +390,8 @@ func runC16(c c16Case) *vh.Outcome {
 	}
 	// barrier: an honest connection whose frame must arrive, then a settle interval
 	w.seq++
-	barrier := fmt.Sprintf("barrier-%d-%d", time.Now().UnixNano(), w.seq)
+	garbageConn()
+	barrier := fmt.Sprintf("barrier-%d-%d", time.Now().UnixNano(), w.seq) + pad
 	if w.rawOK {
 		bc, err := dialRaw(w.srv.Addr, w.srv.Pool)
 		if err != nil {
@@ -395,10 +426,33 @@ func runC16(c c16Case) *vh.Outcome {
 		return true
 	}, 20*time.Second)
 	time.Sleep(150 * time.Millisecond) // settle: slowness can only hide a leak, never invent one
+	garbageConn()
+	if c.Big {
+		time.Sleep(100 * time.Millisecond)
+	}
 	got := w.srv.snapshot()
 	byMarker := map[string][]tssnet.InMsg{}
 	for _, m := range got {
 		byMarker[string(m.Data)] = append(byMarker[string(m.Data)], m)
+	}
+	// whatever the server attributed to a node during this case is, byte for byte, something that was sent in this case
+	// (delivered messages are kept by the consumer and must not change afterwards)
+	sentContent := map[string]bool{barrier: true}
+	for _, s := range sent {
+		sentContent[s.Marker] = true
+	}
+	if gotBefore <= len(got) {
+		for _, m := range got[gotBefore:] {
+			if !sentContent[string(m.Data)] {
+				foreign := bytes.Count(m.Data, []byte("X"))
+				head := m.Data
+				if len(head) > 40 {
+					head = head[:40]
+				}
+				o.Fail = vh.Failf("C16/attributed-content-not-sent-by-that-node", "a message attributed to node %d (domain %q) carries %d bytes that no connection of this case sent as a message (%d of them are the byte an identity-less connection sent in place of its handshake); it starts with %q", m.From, m.Domain, len(m.Data), foreign, head)
+				return o
+			}
+		}
 	}
 	bmu.Lock()
 	for i := range bindings {
